@@ -239,7 +239,7 @@ def explore(prop, tier, seed, workers=None, out=print):
         if pre and all(any(match_finding(e, prop, clause, [sorted(features(x["spec"]))]) for e in pre) for x in vs[:10]):
             known_hits[pre[0]["id"]] += len(vs)
             continue
-        ms, mres, nr = minimise(v["spec"], pr.oracles, prop, clause, budget_s=mbudget)
+        ms, mres, nr = minimise(v["spec"], pr.oracles, prop, clause, budget_s=mbudget, runner=pr.run)
         featsm = sorted(features(ms))
         hit = [e for e in findings.get("open", []) if match_finding(e, prop, clause, [feats0, featsm])]
         if hit:
